@@ -124,15 +124,12 @@ class C06(Prop):
             n2 = r["attempts"][1]["n"] if len(r["attempts"]) > 1 else 0
             items.append("check_lingering %d %d %d %d %d" % (c["size"], c["gate"], c["script"][0]["plen"], n2, r.get("lingered_bytes", 0)))
             rows.append(("lingering", r))
-        body = "\n".join(["From Coq Require Import ZArith List Bool.", "From IP Require Import Agent.ReplayBuffer Agent.ReplayCheck Lib.Util.", "Import ListNotations.",
-                          "Definition codes : list Z := " + C.llit(items) + ".",
-                          "Definition verif_result : list Z := Eval vm_compute in (map (fun p => fst p * 10 + snd p)%Z (nonzero_indices 0%Z codes))."])
-        txt, out, dt = C.eval_cases(ctx.work, "cases_c06", body, timeout=1500)
-        if txt is None:
-            return [("cases_c06.v (model evaluation)", "coqc failed: " + out[-600:], {})], 0, {}
+        header = ["From Coq Require Import ZArith List Bool.", "From IP Require Import Agent.ReplayBuffer Agent.ReplayCheck Lib.Util.", "Import ListNotations."]
+        bad, dt = C.eval_code_items(ctx.work, "cases_c06", header, items, shard=400)
+        if bad is None:
+            return [("cases_c06.v (model evaluation)", "coqc failed: " + dt[-600:], {})], 0, {}
         mism = []
-        for v in C.parse_z_list(txt):
-            idx, code = v // 10, v % 10
+        for idx, code in bad:
             kind, r = rows[idx]
             mism.append(("ReplayCheck.check_%s" % ("upload" if kind == "scripted" else "lingering"),
                          {1: "the model cannot replay the observed read/fail/ack events", 2: "the attempts observed differ from the model's", 3: "the model and the implementation disagree on whether the upload loop has returned"}.get(code, str(code)),
